@@ -1,4 +1,192 @@
-import CosetModel.Api
+/-
+  C11 — encoding emits exactly the modelled content in the documented CBOR shape, and decoding it returns the original value.
+
+  `Header.WF` / `CoseKey.WF` / … are the well-formedness conditions (explicit, field by field); for each type: (a) `to_cbor_value`
+  succeeds and *is* the prescribed structure, written out; (b) `from_cbor_value` of it returns the value, protected headers now carrying
+  the bytes the encoder assigned (`erase` forgets exactly those).  (c) The byte level is the serializer: `to_vec = enc ∘ to_cbor_value`
+  and `enc` is inverted by the independent parser model on every value it represents faithfully.
+-/
+import CosetProofs.Roundtrip.BuiltOther
 namespace Coset.Props.C11
+open Coset Coset.Cbor Coset.Spec
+
+/-! ### (a) shape of the emitted value -/
+
+/-- header map: the populated typed fields once each under labels 1–6 in this order (`typedL`), then the counter-signature entry under 7
+    (`csValue`: absent for none, the signature itself for one, an array for several), then the extra parameters in their given order. -/
+theorem header_emits (alg crit ct kid iv piv cs rest) (ov : Option Value) (hcs : csValue cs = .ok ov) (hr : RestGood rest) :
+    Header.toValue (.mk alg crit ct kid iv piv cs rest) = .ok (.map (pairsToValue (typedL alg crit ct kid iv piv ++ csL ov ++ rest))) :=
+  Header.toValue_entries alg crit ct kid iv piv cs rest ov hcs hr
+
+/-- the typed entries: one per populated field, under its registered label, with exactly its value; empty fields contribute nothing. -/
+theorem typed_entries (alg : Option RegLabelPriv) (crit : List RegLabel) (ct : Option RegLabel) (kid iv piv : Bytes) (e : Label × Value) :
+    e ∈ typedL alg crit ct kid iv piv ↔
+      (∃ a, alg = some a ∧ e = (.int 1, RegLabelPriv.value Reg.algorithm a)) ∨
+      (crit ≠ [] ∧ e = (.int 2, .array (crit.map (RegLabel.value Reg.headerParameter)))) ∨
+      (∃ c, ct = some c ∧ e = (.int 3, RegLabel.value Reg.coapContentFormat c)) ∨
+      (kid ≠ [] ∧ e = (.int 4, .bytes kid)) ∨ (iv ≠ [] ∧ e = (.int 5, .bytes iv)) ∨ (piv ≠ [] ∧ e = (.int 6, .bytes piv)) := by
+  unfold typedL
+  cases alg <;> cases ct <;> by_cases h2 : crit = [] <;> by_cases h4 : kid = [] <;> by_cases h5 : iv = [] <;> by_cases h6 : piv = [] <;>
+    simp [h2, h4, h5, h6]
+
+/-- no label is emitted twice among the typed entries, and they come in ascending label order. -/
+theorem typed_labels_once (alg crit ct kid iv piv) :
+    List.Sublist ((typedL alg crit ct kid iv piv).map (·.1)) [.int 1, .int 2, .int 3, .int 4, .int 5, .int 6] := typedL_labels alg crit ct kid iv piv
+
+/-- a single counter-signature is inlined, several are an array, none is no entry. -/
+theorem counter_signature_forms (s s2 : CoseSignature) (ss : List CoseSignature) (v : Value) (vs : List Value)
+    (h1 : CoseSignature.toValue s = .ok v) (hs : sigsToValues (s :: s2 :: ss) = .ok vs) :
+    csValue [] = .ok none ∧ csValue [s] = .ok (some v) ∧ csValue (s :: s2 :: ss) = .ok (some (.array vs)) := by
+  simp [csValue, h1, hs]
+
+/-- the emptiness test: a header is "empty" only if *every* field is — counter-signatures only or extra parameters only is not empty. -/
+theorem isEmpty_iff (h : Header) : h.isEmpty = true ↔ h = Header.default :=
+  ⟨isEmpty_default h, fun e => by subst e; rfl⟩
+
+/-- protected header: stored bytes verbatim; a built empty header is the zero-length string; any other is the string wrapping its encoded map. -/
+theorem protected_emits (h : Header) (data : Bytes) (x : Value) (hx : Header.toValue h = .ok x) :
+    ProtectedHeader.cborBstr (.mk (some data) h) = .ok (.bytes data) ∧
+    (h.isEmpty = true → ProtectedHeader.cborBstr (.mk none h) = .ok (.bytes [])) ∧
+    (h.isEmpty = false → ProtectedHeader.cborBstr (.mk none h) = .ok (.bytes (enc x))) := by
+  refine ⟨rfl, ?_, ?_⟩
+  · intro he; simp [ProtectedHeader.cborBstr, he]
+  · intro he; simp [ProtectedHeader.cborBstr, he, hx]
+
+/-! ### (a)+(b) per type: the emitted structure and its decoding -/
+
+theorem header (h : Header) (hw : Header.WF maxNest h) :
+    ∃ x h', Header.toValue h = .ok x ∧ hdrFromValue x = .ok h' ∧ Header.erase h' = Header.erase h := hdr_api_rt h hw
+theorem header_any_budget (d : Nat) : HdrRT d ∧ PhRT d ∧ SigRT d := built_rt d
+theorem protected_header (p : ProtectedHeader) (hw : ProtectedHeader.WF maxNest p) :
+    ∃ b p', ProtectedHeader.cborBstr p = .ok (.bytes b) ∧ phFromBstr (.bytes b) = .ok p' ∧ ProtectedHeader.erase p' = ProtectedHeader.erase p ∧
+      p'.originalData = some b := ph_api_rt p hw
+theorem signature (s : CoseSignature) (hw : CoseSignature.WF maxNest s) :
+    ∃ x s', CoseSignature.toValue s = .ok x ∧ sigFromValue x = .ok s' ∧ CoseSignature.erase s' = CoseSignature.erase s := sig_api_rt s hw
+
+/-- COSE_Sign1 = [protected bstr, unprotected map, payload or nil, signature bstr]. -/
+theorem sign1 (m : CoseSign1) (hp : ProtectedHeader.WF maxNest m.protected_) (hu : Header.WF maxNest m.unprotected) :
+    ∃ b y m', m.toValue = .ok (.array [.bytes b, y, optBytesToValue m.payload, .bytes m.signature]) ∧
+      CoseSign1.fromValue (.array [.bytes b, y, optBytesToValue m.payload, .bytes m.signature]) = .ok m' ∧
+      ProtectedHeader.erase m'.protected_ = ProtectedHeader.erase m.protected_ ∧ Header.erase m'.unprotected = Header.erase m.unprotected ∧
+      m'.payload = m.payload ∧ m'.signature = m.signature ∧ m'.protected_.originalData = some b := sign1_rt m hp hu
+/-- COSE_Sign = [protected, unprotected, payload or nil, [signatures]]. -/
+theorem sign (m : CoseSign) (hp : ProtectedHeader.WF maxNest m.protected_) (hu : Header.WF maxNest m.unprotected) (hs : sigsWF maxNest m.signatures) :
+    ∃ b y vs m', m.toValue = .ok (.array [.bytes b, y, optBytesToValue m.payload, .array vs]) ∧
+      CoseSign.fromValue (.array [.bytes b, y, optBytesToValue m.payload, .array vs]) = .ok m' ∧
+      ProtectedHeader.erase m'.protected_ = ProtectedHeader.erase m.protected_ ∧ Header.erase m'.unprotected = Header.erase m.unprotected ∧
+      m'.payload = m.payload ∧ eraseSigs m'.signatures = eraseSigs m.signatures ∧ m'.protected_.originalData = some b := sign_rt m hp hu hs
+/-- COSE_Mac0 = [protected, unprotected, payload or nil, tag]. -/
+theorem mac0 (m : CoseMac0) (hp : ProtectedHeader.WF maxNest m.protected_) (hu : Header.WF maxNest m.unprotected) :
+    ∃ b y m', m.toValue = .ok (.array [.bytes b, y, optBytesToValue m.payload, .bytes m.tag]) ∧
+      CoseMac0.fromValue (.array [.bytes b, y, optBytesToValue m.payload, .bytes m.tag]) = .ok m' ∧
+      ProtectedHeader.erase m'.protected_ = ProtectedHeader.erase m.protected_ ∧ Header.erase m'.unprotected = Header.erase m.unprotected ∧
+      m'.payload = m.payload ∧ m'.tag = m.tag ∧ m'.protected_.originalData = some b := mac0_rt m hp hu
+/-- COSE_Mac = [protected, unprotected, payload or nil, tag, [recipients]]. -/
+theorem mac (m : CoseMac) (hp : ProtectedHeader.WF maxNest m.protected_) (hu : Header.WF maxNest m.unprotected) (hr : rcpsWF m.recipients) :
+    ∃ b y ys m', m.toValue = .ok (.array [.bytes b, y, optBytesToValue m.payload, .bytes m.tag, .array ys]) ∧
+      CoseMac.fromValue (.array [.bytes b, y, optBytesToValue m.payload, .bytes m.tag, .array ys]) = .ok m' ∧
+      ProtectedHeader.erase m'.protected_ = ProtectedHeader.erase m.protected_ ∧ Header.erase m'.unprotected = Header.erase m.unprotected ∧
+      m'.payload = m.payload ∧ m'.tag = m.tag ∧ eraseRcps m'.recipients = eraseRcps m.recipients ∧ m'.protected_.originalData = some b :=
+  mac_rt m hp hu hr
+/-- COSE_Encrypt0 = [protected, unprotected, ciphertext or nil]. -/
+theorem encrypt0 (m : CoseEncrypt0) (hp : ProtectedHeader.WF maxNest m.protected_) (hu : Header.WF maxNest m.unprotected) :
+    ∃ b y m', m.toValue = .ok (.array [.bytes b, y, optBytesToValue m.ciphertext]) ∧
+      CoseEncrypt0.fromValue (.array [.bytes b, y, optBytesToValue m.ciphertext]) = .ok m' ∧
+      ProtectedHeader.erase m'.protected_ = ProtectedHeader.erase m.protected_ ∧ Header.erase m'.unprotected = Header.erase m.unprotected ∧
+      m'.ciphertext = m.ciphertext ∧ m'.protected_.originalData = some b := encrypt0_rt m hp hu
+/-- COSE_Encrypt = [protected, unprotected, ciphertext or nil, [recipients]]. -/
+theorem encrypt (m : CoseEncrypt) (hp : ProtectedHeader.WF maxNest m.protected_) (hu : Header.WF maxNest m.unprotected) (hr : rcpsWF m.recipients) :
+    ∃ b y ys m', m.toValue = .ok (.array [.bytes b, y, optBytesToValue m.ciphertext, .array ys]) ∧
+      CoseEncrypt.fromValue (.array [.bytes b, y, optBytesToValue m.ciphertext, .array ys]) = .ok m' ∧
+      ProtectedHeader.erase m'.protected_ = ProtectedHeader.erase m.protected_ ∧ Header.erase m'.unprotected = Header.erase m.unprotected ∧
+      m'.ciphertext = m.ciphertext ∧ eraseRcps m'.recipients = eraseRcps m.recipients ∧ m'.protected_.originalData = some b := encrypt_rt m hp hu hr
+
+/-- COSE_recipient: three elements when it has no nested recipients, four otherwise — and decoding gives it back, at every nesting. -/
+theorem recipient (r : CoseRecipient) (hw : r.WF) : ∃ x r', r.toValue = .ok x ∧ rcpFromValue x = .ok r' ∧ r'.erase = r.erase := rcp_rt r hw
+theorem recipient_slot_omitted (p u ct) (hs : List Value) (h : headerSlots p u = .ok hs) :
+    CoseRecipient.toValue (.mk p u ct []) = .ok (.array (hs ++ [optBytesToValue ct])) := by simp [CoseRecipient.toValue, h]
+
+/-- COSE_Key: kty always, kid / alg / key_ops / Base IV when populated (labels 1–5), then the other parameters in order; decodes to the same key. -/
+theorem key (k : CoseKey) (hw : k.WF) :
+    k.toValue = .ok (.map (pairsToValue (keyL k.kty k.keyId k.alg k.keyOps k.baseIv ++ k.params))) ∧
+    CoseKey.fromValue (.map (pairsToValue (keyL k.kty k.keyId k.alg k.keyOps k.baseIv ++ k.params))) = .ok k := key_rt k hw
+theorem keyset (ks : List CoseKey) (hw : ∀ k ∈ ks, k.WF) : ∃ vs, CoseKeySet.toValue ks = .ok (.array vs) ∧ CoseKeySet.fromValue (.array vs) = .ok ks :=
+  keyset_rt ks hw
+/-- claims set: the populated typed claims under 1–7 in order, then the others; decodes to the same set. -/
+theorem claims (c : ClaimsSet) (hw : c.WF) :
+    c.toValue = .ok (.map (namePairs (claimL c.issuer c.subject c.audience c.expirationTime c.notBefore c.issuedAt c.cwtId ++ c.rest))) ∧
+    ClaimsSet.fromValue (.map (namePairs (claimL c.issuer c.subject c.audience c.expirationTime c.notBefore c.issuedAt c.cwtId ++ c.rest))) = .ok c :=
+  claims_rt c hw
+theorem party_info (p : PartyInfo) (hw : p.WF) : ∃ x, p.toValue = .ok x ∧ PartyInfo.fromValue x = .ok p := party_rt p hw
+theorem supp_pub_info (s : SuppPubInfo) (hw : s.WF) :
+    ∃ x s', s.toValue = .ok x ∧ SuppPubInfo.fromValue x = .ok s' ∧ s'.keyDataLength = s.keyDataLength ∧ s'.other = s.other ∧
+      ProtectedHeader.erase s'.protected_ = ProtectedHeader.erase s.protected_ := supp_rt s hw
+theorem kdf_context (k : CoseKdfContext) (hw : k.WF) :
+    ∃ x k', k.toValue = .ok x ∧ CoseKdfContext.fromValue x = .ok k' ∧ k'.algorithmId = k.algorithmId ∧ k'.partyUInfo = k.partyUInfo ∧
+      k'.partyVInfo = k.partyVInfo ∧ k'.suppPrivInfo = k.suppPrivInfo ∧ k'.suppPubInfo.keyDataLength = k.suppPubInfo.keyDataLength ∧
+      k'.suppPubInfo.other = k.suppPubInfo.other ∧
+      ProtectedHeader.erase k'.suppPubInfo.protected_ = ProtectedHeader.erase k.suppPubInfo.protected_ := kdf_rt k hw
+/-- labels. -/
+theorem label (l : Label) (h : LabelGood l) : Label.toValue l = .ok (labelValue l) ∧ Label.fromValue (labelValue l) = .ok l :=
+  ⟨Label.toValue_eq l, Label.roundtrip l h⟩
+
+/-! ### (c) through the serializer -/
+
+/-- `to_vec` is the serializer applied to the emitted value; an independent reading of those bytes gives that value back, and then the
+    type's decoder gives the original (whatever `conv` yields on the emitted value). -/
+theorem bytes {α : Type} (conv : Value → Res α) (toV : α → Res Value) (t : α) (x : Value) (hx : toV t = .ok x)
+    (hn : Normal x) (hd : depthOf x ≤ recursionLimit) :
+    toVec toV t = .ok (enc x) ∧ readToValue (enc x) = .ok x ∧ fromSlice conv (enc x) = conv x := by
+  have hr := readToValue_enc x hn hd
+  exact ⟨by simp [toVec, hx], hr, by simp [fromSlice, hr]⟩
+
+theorem tagged_bytes {α : Type} (tag : Nat) (conv : Value → Res α) (toV : α → Res Value) (t : α) (x : Value) (hx : toV t = .ok x)
+    (hn : Normal (.tag tag x)) (hd : depthOf (.tag tag x) ≤ recursionLimit) :
+    toTaggedVec tag toV t = .ok (enc (.tag tag x)) ∧ readToValue (enc (.tag tag x)) = .ok (.tag tag x) ∧
+      fromTaggedSlice tag conv (enc (.tag tag x)) = conv x := by
+  have hr := readToValue_enc _ hn hd
+  exact ⟨by simp [toTaggedVec, hx], hr, by simp [fromTaggedSlice, hr, tryAsTag]⟩
+
+/-! ### non-vacuity -/
+
+/-- a header with an algorithm, a key id and an extra parameter is well-formed at the API's nesting budget. -/
+example : Header.WF maxNest (.mk (some (.assigned Gen.idx_Algorithm_ES256)) [] none [1, 2] [] [] [] [(.int 100, .int 1)]) := by
+  refine ⟨⟨?_, by simp, by simp, by simp⟩, ⟨by simp, ?_, ?_⟩, by simp, by simp [sigsWF]⟩
+  · intro a ha; cases ha; simp only [GoodRegPriv]; decide +kernel
+  · intro l hl; simp at hl; subst hl; decide
+  · intro l hl; simp at hl; subst hl; simp [LabelGood, i64Min, i64Max]
+
+/-- a protected header holding only an extra parameter is *not* encoded as the empty string. -/
+example : (match ProtectedHeader.cborBstr (.mk none (.mk none [] none [] [] [] [] [(.int 100, .int 1)])) with
+    | .ok (.bytes b) => b == [0xa1, 0x18, 0x64, 0x01]
+    | _ => false) = true := by decide +kernel
+
+#print axioms header_emits
+#print axioms typed_entries
+#print axioms typed_labels_once
+#print axioms counter_signature_forms
+#print axioms isEmpty_iff
+#print axioms protected_emits
+#print axioms header
+#print axioms header_any_budget
+#print axioms protected_header
+#print axioms signature
+#print axioms sign1
+#print axioms sign
+#print axioms mac0
+#print axioms mac
+#print axioms encrypt0
+#print axioms encrypt
+#print axioms recipient
+#print axioms recipient_slot_omitted
+#print axioms key
+#print axioms keyset
+#print axioms claims
+#print axioms party_info
+#print axioms supp_pub_info
+#print axioms kdf_context
+#print axioms label
+#print axioms bytes
+#print axioms tagged_bytes
 
 end Coset.Props.C11
